@@ -138,6 +138,12 @@ func vfCallProgs() map[string][]*vfN {
 		"objtype-deref-index-module":  {pkg0, {K: "Name", Name: "VAL0", C: []*vfN{vfI(0)}}, store(op("8e", op(derefOf, op(index, &vfN{K: "Call", Name: "PKG0"}, call("M001", vfI(0)), null))), &vfN{K: "Call", Name: "VAL0"}), m1(1)},
 		"incr-index":                  {pkg0, meth("M000", 0, op(incr, op(index, &vfN{K: "Call", Name: "PKG0"}, vfI(0), null)), ret(vfI(0)))},
 		"notify-deref-index-call-fwd": {pkg0, meth("M000", 0, op(notify, op(derefOf, op(index, &vfN{K: "Call", Name: "PKG0"}, call("M001", vfI(0)), null)), vfI(0x80)), ret(vfI(0))), m1(1)},
+		// the same method name declared at two levels of one ancestor chain (shadowing): a call from inside the inner
+		// scope binds to the inner declaration, one from outside to the outer one - in either order of resolution
+		"shadowed-method-inner-last": {meth("HLPR", 1, arg0...), {K: "Device", Name: "DEV0", C: []*vfN{meth("HLPR", 2, arg0...), meth("M000", 0, store(vfI(5), loc0), call("HLPR", vfI(1), vfI(2)))}}, meth("M002", 0, ret(call("HLPR", vfI(1))))},
+		"shadowed-method-outer-last": {meth("HLPR", 1, arg0...), meth("M002", 0, ret(call("HLPR", vfI(1)))), {K: "Device", Name: "DEV0", C: []*vfN{meth("HLPR", 2, arg0...), meth("M000", 0, ret(call("HLPR", vfI(1), vfI(2))))}}},
+		"shadowed-method-fwd":        {{K: "Device", Name: "DEV0", C: []*vfN{meth("M000", 0, ret(call("HLPR", vfI(1), vfI(2)))), meth("HLPR", 2, arg0...)}}, meth("M002", 0, ret(call("HLPR", vfI(1)))), meth("HLPR", 1, arg0...)},
+		"shadowed-name-two-devices":  {{K: "Name", Name: "VAL0", C: []*vfN{vfI(1)}}, {K: "Device", Name: "DEV0", C: []*vfN{{K: "Name", Name: "VAL0", C: []*vfN{vfI(2)}}, meth("M000", 0, ret(&vfN{K: "Call", Name: "VAL0"}))}}, {K: "Device", Name: "DEV1", C: []*vfN{meth("M000", 0, ret(&vfN{K: "Call", Name: "VAL0"}))}}},
 		// a call whose argument is itself an operator with arguments (the operator's arguments follow at the outer level)
 		"call-arg-operator-stmt-fwd": {pkg0, meth("M000", 0, call("M001", op(derefOf, op(index, &vfN{K: "Call", Name: "PKG0"}, vfI(0), null))), ret(vfI(0))), m1(1)},
 		"call-arg-operator-stmt-bwd": {pkg0, m1(1), meth("M000", 0, call("M001", op(derefOf, op(index, &vfN{K: "Call", Name: "PKG0"}, vfI(0), null))), ret(vfI(0)))},
@@ -409,7 +415,7 @@ func TestVerifC11(t *testing.T) {
 		}
 	}
 	run.Count("rejected_by_reference_as_ill_formed", c.skipped)
-	run.Finish(true, fmt.Sprintf("T1: 20 constructs x 7 name forms x 13 containers x PkgLength encodings %v; T2: 55 call/field/operator/module-level programs x 13 containers, every ordered pair of constructs x 13 containers; T3: constructs x name forms x 8x8 nested containers (thorough: all constructs; plus T2 programs in 8x8 nested containers and every ordered triple of constructs in 4 containers); T4: 5 first tables x 7 second tables (Scope into / call into / plain) x constructs, and 3 first tables with deferred blocks (Buffer, While, Package) x later tables that need the two-phase treatment again (forward calls, nested packages followed by siblings, every T2 program), two and three tables on one parser; T5: every ordered pair and triple of 7 scope/relocation blocks whose resolution needs several passes (also split over two tables)", pfs),
+	run.Finish(true, fmt.Sprintf("T1: 20 constructs x 7 name forms x 13 containers x PkgLength encodings %v; T2: 59 call/field/operator/module-level programs x 13 containers, every ordered pair of constructs x 13 containers; T3: constructs x name forms x 8x8 nested containers (thorough: all constructs; plus T2 programs in 8x8 nested containers and every ordered triple of constructs in 4 containers); T4: 5 first tables x 7 second tables (Scope into / call into / plain) x constructs, and 3 first tables with deferred blocks (Buffer, While, Package) x later tables that need the two-phase treatment again (forward calls, nested packages followed by siblings, every T2 program), two and three tables on one parser; T5: every ordered pair and triple of 7 scope/relocation blocks whose resolution needs several passes (also split over two tables)", pfs),
 		"a program is distinct by its ASL rendering and non-trivial if the reference accepts it as well-formed and the parsed namespace agrees with it")
 }
 
